@@ -228,7 +228,23 @@ func digest(v any) string {
 func answers(idx bleve.Index, h int, layout string) ([]any, error) {
 	var out []any
 	for i, rq := range battery() {
-		res, err := idx.Search(rq.Req())
+		var res *bleve.SearchResult
+		var err error
+		done := make(chan struct{})
+		go func() {
+			defer close(done)
+			res, err = idx.Search(rq.Req())
+		}()
+		select {
+		case <-done:
+		case <-time.After(90 * time.Second):
+			// a request that does not come back on this layout (it answers in milliseconds on the
+			// others): that is its answer here; the remaining requests of this layout are skipped
+			// because the stuck search keeps running
+			out = append(out, map[string]any{"h": h, "layout": layout, "req": i, "reqname": rq.Name, "ids": []any{"<no answer in 90 s>"}, "scores": []any{},
+				"total": -2, "extras": []any{}, "facets": "", "maxscore": ""})
+			return out, nil
+		}
 		if err != nil {
 			// a request that fails on this layout: that IS its answer here (compared
 			// with the answer of the first layout like any other)
